@@ -50,10 +50,10 @@ type Expr struct {
 	Flags    []string
 	Pred     string
 	Args     []*Const
-	To       *Type   // casts
-	ElemT    *Type   // getelementptr
-	InBounds bool    // getelementptr
-	InRange  int     // getelementptr: index with inrange (-1 none)
+	To       *Type // casts
+	ElemT    *Type // getelementptr
+	InBounds bool  // getelementptr
+	InRange  int   // getelementptr: index with inrange (-1 none)
 	Indices  []uint64
 }
 
@@ -73,13 +73,13 @@ const (
 
 // Value is an operand.
 type Value struct {
-	K     VKind
-	C     *Const
-	I     *Inst
-	P     *Param
-	B     *Block
-	MD    *MDField
-	Asm   *InlineAsm
+	K   VKind
+	C   *Const
+	I   *Inst
+	P   *Param
+	B   *Block
+	MD  *MDField
+	Asm *InlineAsm
 }
 
 // InlineAsm callee.
@@ -122,47 +122,47 @@ type Inst struct {
 	T    *Type  // result type; nil or Void when no value
 	Args []*Value
 
-	Flags    []string // nsw nuw exact, fast-math flags
-	Pred     string   // icmp/fcmp
-	To       *Type    // casts
-	ElemT    *Type    // alloca, load, gep element type
-	InBounds bool
-	Align    uint64
-	AddrSpace uint64 // alloca
-	InAlloca bool
+	Flags      []string // nsw nuw exact, fast-math flags
+	Pred       string   // icmp/fcmp
+	To         *Type    // casts
+	ElemT      *Type    // alloca, load, gep element type
+	InBounds   bool
+	Align      uint64
+	AddrSpace  uint64 // alloca
+	InAlloca   bool
 	SwiftError bool
-	Volatile bool
-	Atomic   bool
-	Weak     bool
-	SyncScope string
-	Ordering  string
-	Ordering2 string // cmpxchg failure ordering
-	RMWOp     string
-	Indices   []uint64 // extractvalue / insertvalue
-	Mask      *Const   // shufflevector mask
+	Volatile   bool
+	Atomic     bool
+	Weak       bool
+	SyncScope  string
+	Ordering   string
+	Ordering2  string // cmpxchg failure ordering
+	RMWOp      string
+	Indices    []uint64 // extractvalue / insertvalue
+	Mask       *Const   // shufflevector mask
 
 	// phi
 	Incs []*Incoming
 
 	// call / invoke / callbr
-	Callee     *Value
-	FnT        *Type // callee function type
-	Tail       string
-	CC         string
-	RetAttrs   []string
-	ArgAttrs   [][]string
-	FnAttrs    []string
-	Bundles    []*Bundle
+	Callee        *Value
+	FnT           *Type // callee function type
+	Tail          string
+	CC            string
+	RetAttrs      []string
+	ArgAttrs      [][]string
+	FnAttrs       []string
+	Bundles       []*Bundle
 	AddrSpaceCall uint64
 
 	// terminators
-	Targets []*Block   // br: [t] / [true,false]; switch: default first then cases; invoke: normal, unwind; indirectbr targets; callbr: fallthrough + indirect
-	Cases   []*Const   // switch case values (parallel to Targets[1:])
-	Cleanup bool       // landingpad
-	Clauses []*Clause  // landingpad
-	ParentPad *Value   // catchpad (catchswitch), cleanuppad/catchswitch (token or none)
-	UnwindToCaller bool // catchswitch / cleanupret
-	Handlers []*Block   // catchswitch
+	Targets        []*Block  // br: [t] / [true,false]; switch: default first then cases; invoke: normal, unwind; indirectbr targets; callbr: fallthrough + indirect
+	Cases          []*Const  // switch case values (parallel to Targets[1:])
+	Cleanup        bool      // landingpad
+	Clauses        []*Clause // landingpad
+	ParentPad      *Value    // catchpad (catchswitch), cleanuppad/catchswitch (token or none)
+	UnwindToCaller bool      // catchswitch / cleanupret
+	Handlers       []*Block  // catchswitch
 
 	MD []*Attachment
 }
@@ -203,31 +203,31 @@ type Block struct {
 }
 
 type Fun struct {
-	Name        string // "" = unnamed global
-	Ret         *Type
-	Params      []*Param
-	Variadic    bool
-	Blocks      []*Block // nil: declaration
-	Decl        bool     // generator: this function stays a declaration
-	Linkage     string
-	Preemption  string
-	Visibility  string
-	DLL         string
-	CC          string
-	RetAttrs    []string
-	UnnamedAddr string
-	AddrSpace   uint64
-	FnAttrs     []string
-	AttrGroup   *AttrGroup
-	Section     string
-	Partition   string
-	Comdat      *Comdat
-	Align       uint64
-	GC          string
-	Prefix      *Const
-	Prologue    *Const
-	Personality *Const
-	MD          []*Attachment
+	Name          string // "" = unnamed global
+	Ret           *Type
+	Params        []*Param
+	Variadic      bool
+	Blocks        []*Block // nil: declaration
+	Decl          bool     // generator: this function stays a declaration
+	Linkage       string
+	Preemption    string
+	Visibility    string
+	DLL           string
+	CC            string
+	RetAttrs      []string
+	UnnamedAddr   string
+	AddrSpace     uint64
+	FnAttrs       []string
+	AttrGroup     *AttrGroup
+	Section       string
+	Partition     string
+	Comdat        *Comdat
+	Align         uint64
+	GC            string
+	Prefix        *Const
+	Prologue      *Const
+	Personality   *Const
+	MD            []*Attachment
 	UseListOrders []*UseListOrder // function-level directives, printed before the closing brace
 }
 
@@ -304,7 +304,7 @@ const (
 	MDInline // inline node (tuple or specialised) without ID
 	MDInt    // bare integer (specialised node fields)
 	MDBool
-	MDEnum   // bare keyword (DW_TAG_..., DIFlag..., FullDebug)
+	MDEnum       // bare keyword (DW_TAG_..., DIFlag..., FullDebug)
 	MDLocalValue // function-local value: %x (only in call arguments)
 )
 
@@ -316,14 +316,14 @@ type MDField struct {
 	Node  *MDNode  // MDRef, MDInline
 	Int   *big.Int // MDInt
 	Bool  bool
-	Local *Value   // MDLocalValue
+	Local *Value // MDLocalValue
 }
 
 // MDNode is a metadata node: a tuple (Kind "") or a specialised node.
 type MDNode struct {
 	ID       int // -1: inline / unassigned
 	Distinct bool
-	Kind     string // "" tuple, else DIFile, DILocation, ...
+	Kind     string     // "" tuple, else DIFile, DILocation, ...
 	Fields   []*MDField // tuple operands
 	Names    []string   // specialised: field names parallel to Fields
 }
@@ -374,7 +374,7 @@ type Module struct {
 	AttrGroups     []*AttrGroup
 	NamedMDs       []*NamedMD
 	MDs            []*MDNode
-	Order          []Top // textual order; nil = canonical grouping
+	Order          []Top           // textual order; nil = canonical grouping
 	UseListOrders  []*UseListOrder // module-level directives, printed after everything else
 }
 
